@@ -637,10 +637,13 @@ sfd_tran_ep_close(void *arg)
 		nng_stream_listener_close(ep->listener);
 	}
 	NNI_LIST_FOREACH (&ep->negopipes, p) {
-		sfd_tran_pipe_close(p);
+		nni_pipe_close(p->npipe);
 	}
 	NNI_LIST_FOREACH (&ep->waitpipes, p) {
-		sfd_tran_pipe_close(p);
+		// Nobody else will release our hold on a pipe that finished
+		// negotiating but was never handed to an accept.
+		nni_pipe_close(p->npipe);
+		nni_pipe_rele(p->npipe);
 	}
 	if (ep->useraio != NULL) {
 		nni_aio_finish_error(ep->useraio, NNG_ECLOSED);
